@@ -98,14 +98,15 @@ type sysFile struct {
 }
 
 type sysWorld struct {
-	cfg   bs.BloomSearchEngineConfig
-	store *qStore
-	mem   *bs.MemoryMetaStore
-	meta  *qMeta
-	eng   *bs.BloomSearchEngine
-	files []sysFile // in MetaStore yield order
-	byPtr map[string]*sysFile
-	maxQC int
+	cfg     bs.BloomSearchEngineConfig
+	store   *qStore
+	mem     *bs.MemoryMetaStore
+	meta    *qMeta
+	eng     *bs.BloomSearchEngine
+	files   []sysFile // in MetaStore yield order
+	byPtr   map[string]*sysFile
+	maxQC   int
+	stopped bool
 }
 
 type sysQuery struct {
@@ -308,7 +309,11 @@ func (w *sysWorld) describe() string {
 func (w *sysWorld) stop(c *Ctx) {
 	ctx, cancel := context.WithTimeout(context.Background(), 10*time.Second)
 	defer cancel()
+	if w.stopped {
+		return
+	}
+	w.stopped = true
 	if err := w.eng.Stop(ctx); err != nil {
-		c.violation("q-stop", "engine Stop failed after queries: "+err.Error(), nil)
+		c.violation("q-stop", "engine Stop failed: "+err.Error(), nil)
 	}
 }
